@@ -1,6 +1,6 @@
 (* C09 Builder is faithful and serialisation loses nothing *)
 Load "coq/props/Hdr".
-From PM Require Import BuildG BuildGen C01P C09 Builder Assemble C08rel Final Exec.
+From PM Require Import BuildG BuildGen C01P C09 Builder Assemble C08rel Final Exec Refine.
 Lemma src_rt : rt_ok cfg. Proof. prove_rt. Qed.
 Lemma src_cfg_ok : cfg_ok cfg. Proof. sc. Qed.
 (* the string form of a built PURL is accepted and yields the same fields, up to dropping insignificant segments *)
@@ -77,3 +77,8 @@ Theorem C09_empty_means_unset : forall (T : Type) (tp : T * parts),
   xstep cfg tp XNoNs = xstep cfg tp (XNs []) /\ xstep cfg tp XNoVer = xstep cfg tp (XVer []) /\ xstep cfg tp XNoSub = xstep cfg tp (XSub []).
 Proof. intros T. apply xstep_without. Qed.
 Print Assumptions C09_empty_means_unset.
+(* qualifiers: later calls override earlier ones per lower-cased key, and leave every other key alone *)
+Theorem C09_last_qualifier_wins : forall q k v q' k', QInv cfg q -> q_insert cfg q k v = Ok q' ->
+  q_get cfg q' k = Some v /\ (valid_key cfg k' = true -> lk k' <> lk k -> q_get cfg q' k' = q_get cfg q k').
+Proof. intros q k v q' k' HQ Hi. split; [eapply Quals3.q_get_insert_same; try eassumption; sc|intros; eapply q_get_insert_other; try eassumption; sc]. Qed.
+Print Assumptions C09_last_qualifier_wins.
